@@ -1024,6 +1024,12 @@ let with_iid iid s =
   { s_epr = s.s_epr; s_types = s.s_types; s_scopes = s.s_scopes; s_xaddrs =
     s.s_xaddrs; s_mdv = s.s_mdv; s_iid = iid }
 
+(** val eff_iid : bool -> z option -> z option **)
+
+let eff_iid allow = function
+| Some i -> Some i
+| None -> if allow then Some Z0 else None
+
 (** val probe_matches : table -> z -> service list -> table * out list **)
 
 let rec probe_matches t iid = function
@@ -1047,11 +1053,12 @@ let rec probe_matches t iid = function
   let (t2, os) = probe_matches t1 iid r in (t2, (app o os))
 
 (** val handle :
-    mconsts -> bool -> (bytes -> sres) -> dstate -> msg -> dstate * out list **)
+    mconsts -> bool -> (bytes -> sres) -> bool -> dstate -> msg ->
+    dstate * out list **)
 
-let handle m fixed split d = function
-| MHello (appseq, s) ->
-  (match appseq with
+let handle m fixed split allow d = function
+| MHello (a, s) ->
+  (match eff_iid allow a with
    | Some iid ->
      ({ remote = (add_remote d.remote (with_iid iid s)); local = d.local },
        (match s.s_xaddrs with
@@ -1063,8 +1070,8 @@ let handle m fixed split d = function
   (match filter_services m fixed split (t_values d.local) types scopes with
    | Ret l -> (d, (map (fun x -> OProbeMatch x) l))
    | Raise -> (d, []))
-| MProbeMatches (appseq, ms) ->
-  (match appseq with
+| MProbeMatches (a, ms) ->
+  (match eff_iid allow a with
    | Some iid ->
      let (t, os) = probe_matches d.remote iid ms in
      ({ remote = t; local = d.local }, os)
@@ -1073,8 +1080,8 @@ let handle m fixed split d = function
   (match t_get epr d.local with
    | Some s -> (d, ((OResolveMatch s) :: []))
    | None -> (d, []))
-| MResolveMatches (appseq, m1) ->
-  (match appseq with
+| MResolveMatches (a, m1) ->
+  (match eff_iid allow a with
    | Some iid ->
      (match m1 with
       | Some s ->
@@ -1109,22 +1116,22 @@ type event =
 | ELoop of nat
 
 (** val deliver :
-    mconsts -> bool -> (bytes -> sres) -> nat -> node -> z -> msg ->
+    mconsts -> bool -> (bytes -> sres) -> bool -> nat -> node -> z -> msg ->
     node * out list **)
 
-let deliver m fixed split cap n0 mid m0 =
+let deliver m fixed split allow cap n0 mid m0 =
   if is_known n0.kn_ids mid
   then (n0, [])
   else let k1 = remember cap n0.kn_ids mid in
-       let (d, os) = handle m fixed split n0.disc m0 in
+       let (d, os) = handle m fixed split allow n0.disc m0 in
        ({ disc = d; kn_ids = (send_all cap k1 (length n0.sent) os); sent =
        (app n0.sent os) }, os)
 
 (** val step :
-    mconsts -> bool -> (bytes -> sres) -> nat -> node -> event -> node * out
-    list **)
+    mconsts -> bool -> (bytes -> sres) -> bool -> nat -> node -> event ->
+    node * out list **)
 
-let step m fixed split cap n0 = function
+let step m fixed split allow cap n0 = function
 | EPublish (epr, types, scopes, xaddrs, iid) ->
   let mdv =
     match t_get epr n0.disc.local with
@@ -1147,11 +1154,12 @@ let step m fixed split cap n0 = function
      (send_all cap n0.kn_ids (length n0.sent) os); sent = (app n0.sent os) },
      os)
    | None -> (n0, []))
-| EIn (mid, m0) -> deliver m fixed split cap n0 mid m0
+| EIn (mid, m0) -> deliver m fixed split allow cap n0 mid m0
 | ELoop k ->
   (match nth_error n0.sent k with
    | Some o ->
-     deliver m fixed split cap n0 (Z.opp (Z.of_nat (S k))) (msg_of_out o)
+     deliver m fixed split allow cap n0 (Z.opp (Z.of_nat (S k)))
+       (msg_of_out o)
    | None -> (n0, []))
 
 (** val node0 : node **)
